@@ -1,0 +1,13 @@
+//go:build verif
+
+// Contract of the generator's glue code (comment-only; see /verif). What the
+// template engine writes is NOT under contract: html/template.Execute has no
+// usable specification; the bounded run of /verif observes it instead.
+
+package main
+
+//@ func updateWordlist
+//@   ensures [C17] fetch: Get_url == cat("https://raw.githubusercontent.com/bitcoin/bips/master/bip-0039/", cat(path, ".txt"))
+//@   ensures [C17] target: implies(result == nil, OpenFile_path == cat("internal/wordlist", cat("/", cat(path, ".go"))) && OpenFile_flags == 578)
+//@   ensures [C17] data: implies(result == nil, Execute_variable == variable && Execute_words == split(strOf(ReadAll_bytes), "\n") && Execute_writer == OpenFile_file && Execute_tmpl == filetpl && ReadAll_reader == bodyOf(Get_resp))
+//@   ensures [C17] failclosed: implies(result == nil, Get_err == nil && ReadAll_err == nil && OpenFile_err == nil && Execute_err == nil)
